@@ -739,19 +739,21 @@ class Translator:
         parts += ['%s: %s' % (c, ', '.join(ts)) for c, ts in groups.items()]
         return '; '.join(parts)
 
-    def weave_loop(self):
+    def weave_loop(self, names=None):
         i = self.loop_ord
         self.loop_ord += 1
         lc = self.contract.get('loops', {}).get(i)
         if not lc:
             return ''
+        # $range / $i stand for the lowered range-for's range pointer and index (their numbering depends on earlier temporaries)
+        sub = (lambda t: t.replace('$range', names[0]).replace('$i', names[1])) if names else (lambda t: t)
         out = ''
         if 'assigns' in lc:
-            out += '  __CPROVER_assigns(%s)\n' % self.assigns_text(lc['assigns'])
+            out += '  __CPROVER_assigns(%s)\n' % sub(self.assigns_text(lc['assigns']))
         for inv in lc.get('invariant', []):
-            out += '  __CPROVER_loop_invariant(%s)\n' % inv
+            out += '  __CPROVER_loop_invariant(%s)\n' % sub(inv)
         if 'decreases' in lc:
-            out += '  __CPROVER_decreases(%s)\n' % lc['decreases']
+            out += '  __CPROVER_decreases(%s)\n' % sub(lc['decreases'])
         return out
 
     # ------------------------------------------------------------------ statements
@@ -1149,7 +1151,7 @@ class Translator:
         vt = self.ntype(loopvar)
         self.locals[-1][loopvar['id']] = vt
         rtext = self.expr(rexpr)
-        lc = self.weave_loop()
+        lc = self.weave_loop((r, i))
         self.loop_depth_push()
         if vt.ref:
             bind = '%s = %s(%s, %s);\n' % (vt.decl(loopvar['name']), at_fn, r, i)
